@@ -34,7 +34,7 @@ CHECKS = {
                 "Tie: on every run the model the real code hands to CBC (captured through the MPSolver API at the first solve) is compared with "
                 "MajorInst.build of the same instance, _filter_alleles with filterAlleles, and an independent exhaustive oracle over all allele "
                 "multisets checks score, optimality, gap-completeness and uniqueness of the real return (C05's loop theorems carry the enumeration).",
-        "design_ref": "DESIGN.md section 4 (C02), 3.2",
+        "design_ref": "DESIGN.md section 10.2-10.3 (as built), section 4 (C02), 3.2 (plan)",
         "note": "Optimality/completeness = C05's Run theorems (each solve returns a true optimum: CBC trusted, cross-checked by the exhaustive "
                 "oracle on generated instances) + the antichain theorem, under the hypothesis that every candidate allele's configuration is part "
                 "of the structure (what _filter_alleles guarantees; compared with filterAlleles on every run).",
@@ -49,7 +49,7 @@ CHECKS = {
                 "the estimate_cn decision table (user structure verbatim, unknown names rejected, two/one default copies). Ties on every run: captured "
                 "CBC model == CNInst.build, real return == foldCN(real yields), _filter_configs == filterConfigs, estimate_cn decisions == cnDecision; "
                 "plus an exhaustive spec-level oracle over all admissible internal assignments.",
-        "design_ref": "DESIGN.md section 4 (C03)",
+        "design_ref": "DESIGN.md section 10.2-10.3 (as built), section 4 (C03) (plan)",
         "note": "Global optimality and superset-completeness are C05's Run theorems applied to this model plus the exhaustive oracle; the exome/VCF "
                 "profile dispatch of genotype.py is covered by C19/C16 ties.",
         "technique": "Lean 4 proof over the constraint builder and the fold + captured-model structural correspondence + exhaustive spec oracle",
@@ -62,7 +62,7 @@ CHECKS = {
                 "options-section round trip, --param items split at the first '='. Ties: parameter table regenerated from Profile.__init__; "
                 "Profile.update vs the model on every parameter x spelling class and random multi-updates; `aldy profile --param` -> YAML -> "
                 "Profile.load round trip through the real CLI code. A genuine defect (booleans) was repaired by a fix: commit.",
-        "design_ref": "DESIGN.md section 4 (C18), 5",
+        "design_ref": "DESIGN.md section 10.2-10.3 (as built), section 4 (C18), 5 (plan)",
         "note": "Python's float() is modelled on finite decimal literals only (tie-checked, no theorem); inf/nan excluded; int() of a native "
                 "non-integral float truncates (documented, not judged).",
         "technique": "Lean 4 proof over the typed-update model + differential correspondence with Profile.update and the real CLI route",
@@ -87,7 +87,7 @@ CHECKS = {
                 "planted multiset among the best solutions when the planted structure is CN-optimal, every best solution's variants (with "
                 "multiplicity) equal to the simulated haplotypes. Three genuine defects found and repaired by fix: commits; one input class "
                 "(two indels <= 20 bp apart) is a known finding.",
-        "design_ref": "DESIGN.md section 4 (C01), 5",
+        "design_ref": "DESIGN.md section 10.2-10.3 (as built), section 4 (C01), 5 (plan)",
         "note": "PARTIAL: feasibility of the planted point of the MINOR model and the premise Planted (the pileup of error-free reads is the "
                 "zero-error evidence) are decided per sample by evaluating the Lean definitions on the real stage inputs (translation "
                 "validation), not proved for all samples; read parsing itself is C06/C08, depth normalisation C07, CN optimality is a "
@@ -109,7 +109,7 @@ CHECKS = {
                 "(incl. failing genes) and fresh interpreters under several PYTHONHASHSEED values give byte-identical output; sibling "
                 "independence of refinement probed on the real estimate_minor. Three genuine defects repaired by fix: commits (accessor aliasing, "
                 "filter closing over the loop variable, hash-seed dependent tie-breaker); pooled candidates across siblings is a known finding.",
-        "design_ref": "DESIGN.md section 4 (C14), 5",
+        "design_ref": "DESIGN.md section 10.2-10.3 (as built), section 4 (C14), 5 (plan)",
         "note": "PARTIAL: interpreter-level behaviour (hash seeds, module-level caches, solver determinism of CBC) is runtime; it is exhibited "
                 "by the subprocess runs, not by a theorem. The world theorem covers the modelled operations only; un-modelled code is covered "
                 "by the snapshot tie. Solver determinism (CBC returning the same optimum for the same model) is assumed.",
@@ -125,7 +125,7 @@ CHECKS = {
                 "the outcome (error, empty simple line, pseudogene-only => whole-gene deletion). A genuine defect (guard skipped for user-supplied "
                 "structures) was repaired by a fix: commit; a minor one (missing simple line for errors raised while loading the sample) is a "
                 "known finding.",
-        "design_ref": "DESIGN.md section 4 (C19), 5",
+        "design_ref": "DESIGN.md section 10.2-10.3 (as built), section 4 (C19), 5 (plan)",
         "note": "The pseudogene-only => deletion clause is decided by the correspondence run (real CN stage on simulated depth) and C03's "
                 "theorems, not by a dedicated optimality theorem. pysam/indelpost trusted.",
         "technique": "Lean 4 proof over the guard decision table (shape regenerated from source) + simulated-BAM correspondence through genotype()",
@@ -142,7 +142,7 @@ CHECKS = {
                 "repair both sides are non-empty when two or more items were placed. Tie: real estimate_diplotype and "
                 "get_major_diplotype vs the model on multisets of 0-6 copies in all production orders (toy, CYP2D6, CYP2A6, CYP2C19, GSTM1, "
                 "generated genes), get_major_name vs majorName, natsort's key vs natKey on every name; property oracle on every real output.",
-        "design_ref": "DESIGN.md section 4 (C11)",
+        "design_ref": "DESIGN.md section 10.2-10.3 (as built), section 4 (C11) (plan)",
         "note": "The partition clause is proved end to end under the hypothesis that a catalogued tandem pairs two different allele numbers (for "
                 "a pair (x, x) the code deletes two list entries per emitted pair or raises IndexError; no shipped database has one). Tandem "
                 "adjacency and order-independence for n <= 2 are decided by the correspondence run and the oracle. Order clauses rest on "
@@ -158,7 +158,7 @@ CHECKS = {
                 "structures, perturbed stage scores, injected empty stages) recorded by wrapping the stage functions from outside and replayed "
                 "through the model, stage by stage; independent Python oracle recomputes the combined scores, the within-gap set and the chain "
                 "consistency (structure <-> alleles <-> minors <-> diplotype) of every reported solution.",
-        "design_ref": "DESIGN.md section 4 (C10)",
+        "design_ref": "DESIGN.md section 10.2-10.3 (as built), section 4 (C10) (plan)",
         "note": "Chain consistency is checked by the oracle on every reported solution and follows from C02 major_csat / C04 at model level; "
                 "float truncation int(1000*score) is compared exactly unless the float and exact truncations differ (counted as hazard).",
         "technique": "Lean 4 proof (sort/filter permutation and order lemmas) + recorded-stage-return replay correspondence with genotype()",
@@ -171,7 +171,7 @@ CHECKS = {
                 "(shared table across solution columns, lost variants still written, indel REF/ALT) are proved in Lean and replayed on the "
                 "implementation; they are known findings (a repair would change the recorded NA10860.vcf.expected). Ties on every run: real "
                 "write_decomposition text == model, real write_vcf records == model (as written); property oracle on the real text.",
-        "design_ref": "DESIGN.md section 4 (C12), 5",
+        "design_ref": "DESIGN.md section 10.2-10.3 (as built), section 4 (C12), 5 (plan)",
         "note": "Five known findings (VCF writer) listed in known_findings.json; any other deviation is reported. Header lines and the "
                 "output-kind dispatch of genotype() are exercised by C17/C14 runs, not modelled here.",
         "technique": "Lean 4 proof (row exactness, permutation/dedup lemmas, closed counter-examples by kernel evaluation) + text-level differential correspondence",
@@ -184,7 +184,7 @@ CHECKS = {
                 "of spanning reads; depth is invariant under read permutation and under splitting a run or exchanging M/=/X; every observation "
                 "carries the binned mapping quality of its read. Ties: _parse_read on generated tuples and the whole Sample(...) on BAMs written by "
                 "pysam (flags, clips, shared names, both strands) vs the model; oracle from htslib's aligned pairs (depth and counts per position).",
-        "design_ref": "DESIGN.md section 4 (C06)",
+        "design_ref": "DESIGN.md section 10.2-10.3 (as built), section 4 (C06) (plan)",
         "note": "PARTIAL at theorem level: the depth theorems hold for every locus at every position that is not part of a catalogued "
                 "multi-substitution site (mergeMnp_depth_away, depth_total_general: the merge step changes observations only at the positions of "
                 "its site); at those sites the merge is covered by the correspondence and the oracle. Count exactness is proved in the same scope: "
@@ -203,7 +203,7 @@ CHECKS = {
                 "neutral region is an error. Tie: real Sample/Profile.load/get_sam_profile_data on simulated read sets (indels, clips, flags, "
                 "custom neutral regions, both strands) vs the model in four metamorphic variants + profile YAML round trip; metamorphic oracle "
                 "on the real values.",
-        "design_ref": "DESIGN.md section 4 (C07)",
+        "design_ref": "DESIGN.md section 10.2-10.3 (as built), section 4 (C07) (plan)",
         "note": "The consequence 'reported structure independent of depth' follows from invariance of the depth vector fed to the CN stage; "
                 "_filter_configs' absolute min_coverage threshold can differ between depths (documented hypothesis FilterStable, not a theorem). "
                 "NA10860 approximate check not run in the quick tier.",
@@ -219,7 +219,7 @@ CHECKS = {
                 "with the real Gene, and the driver evaluates the haplotype equation and the reference-allele hypotheses on every variant "
                 "(shipped: quick 7 genes x 2 builds, thorough all 38 x 2; generated: random sequence, all kinds, both strands, alignment strings "
                 "with I/D); independent sequence-level Python oracle on the real Gene object.",
-        "design_ref": "DESIGN.md section 4 (C08)",
+        "design_ref": "DESIGN.md section 10.2-10.3 (as built), section 4 (C08) (plan)",
         "note": "Multi-block mappings and dotted multi-substitutions are decided by evaluation per variant (finite, exhaustive for shipped "
                 "databases in the thorough tier) rather than by the list-level theorems. Insertion anchoring handed to indelpost/long-read "
                 "matching is exercised through C01/C16 runs, amino-acid effect inference is not modelled.",
@@ -237,7 +237,7 @@ CHECKS = {
                 "collisions; oracle on the real Gene: reachability, single owner, distinct keys, functional split, partial = restriction, "
                 "configurations exist, equality between builds in RefSeq terms (under the evaluated hypothesis that every variant is mapped in "
                 "both builds).",
-        "design_ref": "DESIGN.md section 4 (C09)",
+        "design_ref": "DESIGN.md section 10.2-10.3 (as built), section 4 (C09) (plan)",
         "note": "PARTIAL at theorem level: name injectivity and the effect of dict overwrites/partials are decided per database by the "
                 "correspondence and the oracle, not by theorems. One known finding (insertion on a region boundary, opposite strands).",
         "technique": "Lean 4 proof (fold invariants: distinct keys, membership, permutation) + full-catalogue differential correspondence with Gene",
@@ -255,7 +255,7 @@ CHECKS = {
                 "Ties on every solve_minor_model call of the real estimate_minor: captured CBC model == MinorInst.build; returned alleles == "
                 "readOut of the solver's binaries; returned score == reported objective; oracle with the property's clauses and exhaustive "
                 "optimality on small instances.",
-        "design_ref": "DESIGN.md section 4 (C04), 3.2",
+        "design_ref": "DESIGN.md section 10.2-10.3 (as built), section 4 (C04), 3.2 (plan)",
         "note": "Optimality = C05 Run theorems + exhaustive oracle on small instances (tie-breaker epsilon <= minor_add*#selectors/1e6 allowed); "
                 "'one variant per site' after the homozygous post-processing is checked by the oracle on every real output (no violation seen), "
                 "proved only at ILP level. The iteration order of the considered-variant set is taken from the implementation.",
@@ -271,7 +271,7 @@ CHECKS = {
                 "evidence estimate_minor hands to solve_minor_model (intercepted) vs the model on tables mixing qualifying and sub-threshold "
                 "observations under varied, asymmetric thresholds. Oracle: metamorphic pairs through the real estimate_major/estimate_minor give "
                 "identical solutions and scores; every called core/novel/carried variant meets the count and fraction thresholds on qualifying reads.",
-        "design_ref": "DESIGN.md section 4 (C15)",
+        "design_ref": "DESIGN.md section 10.2-10.3 (as built), section 4 (C15) (plan)",
         "note": "Invariance of the stages under low-quality reads is proved for the filter and carried to the stages by the metamorphic "
                 "correspondence (stages read evidence only through the filtered coverage - checked by the C02/C04 structural ties); the phase "
                 "record is not quality-filtered in the code.",
@@ -288,7 +288,7 @@ CHECKS = {
                 "records) == the model. Oracle: support 10 x copies and reference 20 - 10 x copies per catalogued variant, default 20 elsewhere, "
                 "no failed run, heterozygous allele => reference/allele through genotype(). One genuine defect (crash on ignored shapes) was "
                 "repaired by a fix: commit; insertions, multi-nucleotide substitutions and deletion-insertions not becoming support are known findings.",
-        "design_ref": "DESIGN.md section 4 (C16), 5",
+        "design_ref": "DESIGN.md section 10.2-10.3 (as built), section 4 (C16), 5 (plan)",
         "note": "Seven known-finding signatures (insertion / MNP one-record / MNP adjacent / delins and their genotype-level consequences). "
                 "Pharmacoscan input not modelled.",
         "technique": "Lean 4 proof over the record-conversion model + differential correspondence on generated tabix-indexed VCFs",
@@ -301,7 +301,7 @@ CHECKS = {
                 "lists / phase table of real dumps vs the model; and the property itself on the real code: `aldy genotype --debug` through the real "
                 "command line in a fresh interpreter, archive replayed with `aldy genotype <archive>`, output files compared byte for byte and "
                 "solution objects (names, structures, scores, alleles) compared through the API, for one- and two-gene archives.",
-        "design_ref": "DESIGN.md section 4 (C17)",
+        "design_ref": "DESIGN.md section 10.2-10.3 (as built), section 4 (C17) (plan)",
         "note": "PARTIAL by nature: pickle/gzip/tar and process start are runtime behaviour covered only by the replay runs; invariance of the "
                 "stages under per-site permutation is proved for counts/filters (C15, C17) and carried to results by the replay tie.",
         "technique": "Lean 4 proof (multiset round trip by counting) + real-CLI replay correspondence",
@@ -316,7 +316,7 @@ CHECKS = {
                 "shipped hg19/hg38 databases and generated opposite-strand databases with RefSeq-level evidence transported to both builds. "
                 "Oracle: the property itself - equal major/minor solutions, scores and added/lost variants in RefSeq terms at stage level, and "
                 "equal full-pipeline results for alignments expressed against each build (reads mirrored through the coordinate maps).",
-        "design_ref": "DESIGN.md section 4 (C13)",
+        "design_ref": "DESIGN.md section 10.2-10.3 (as built), section 4 (C13) (plan)",
         "note": "PARTIAL: the equivariance premise (models are renamings) is validated per instance (translation validation), not proved for the "
                 "builders in general; exact score equality of the minor stage holds up to the order-dependent tie-breaker. Evidence transport "
                 "assumes uniform reference depth around insertion anchors (anchors differ by one base between strands).",
@@ -362,7 +362,14 @@ def main():
                      "kind_free_text": "Lean 4 models and theorems (lake project, no Mathlib require); Python harness drives the real aldy code and the compiled Lean driver over a JSON line protocol"}],
         "checks": checks,
         "not_applicable": na,
-        "notes": "Exit codes: 0 held, 1 VIOLATION line, 2 tool trouble. VERIF_SEED seeds every generator; VERIF_TIER overrides --tier.",
+        "notes": "Exit codes: 0 held, 1 VIOLATION line, 2 tool trouble. VERIF_SEED seeds every generator; VERIF_TIER overrides --tier. "
+                 "Every check regenerates lean/Aldy/Generated/Constants.lean from /repo's working tree (per section, with a last-good fallback: only "
+                 "checks that use a stale constant treat an extractor mismatch as a broken obligation), builds its own property modules and the "
+                 "driver, audits the axioms of every property theorem (propext, Classical.choice, Quot.sound only; no sorry / native_decide / "
+                 "bv_decide / own axioms), runs the correspondence against the real code imported from /repo (ALDY_REPO overrides the path) and "
+                 "only then, if something is red, the failing-input search. Open findings and the 'fixed:' lines of the unguarded fix: commits made "
+                 "in /repo are in known_findings.json; the seeded changes used to test the checks are under seeded/ (DESIGN.md section 10.6). "
+                 "No source hooks: hooks.guard is unused.",
     }
     with open(os.path.join(VERIF, "MANIFEST.json"), "w") as f:
         json.dump(m, f, indent=1)
